@@ -117,6 +117,17 @@ class MethodsMixin:
             return self.m_seq(name, rv, A, D, env, hint, tfh)
         if isinstance(rv, EntryV):
             return self.m_entry(name, rv, A, D, env, hint)
+        if isinstance(rv, St) and rv.name == "Range" and name not in ("clone", "contains", "start", "end", "is_empty", "len"):
+            return self.m_seq(name, self.into_seq(rv), A, D, env, hint, tfh)
+        if isinstance(rv, St) and rv.name == "Range" and name == "contains":
+            x = D()
+            lo, hi = rv.f["start"], rv.f["end"]
+            c = True
+            if lo is not None:
+                c = band(c, self.int_cmp(">=", x, lo))
+            if hi is not None:
+                c = band(c, self.int_cmp("<=" if rv.f["closed"] else "<", x, hi))
+            return c
         if isinstance(rv, Tu) or isinstance(rv, St) or isinstance(rv, En):
             if name in CLONE_LIKE:
                 return rv
